@@ -502,6 +502,8 @@ done:
 	}
 	if (!t && (tq || sc && *sc || fs && *fs))
 		error(&tok.loc, "declaration has no type specifier");
+	if (t && t->kind == TYPEFUNC && tq)
+		error(&tok.loc, "function type cannot be qualified");
 	/*
 	TODO: consider delaying attribute parsing to declarator(),
 	so we can tell the difference between the start of an
